@@ -153,7 +153,8 @@ COMBINATORS = {
     "std::option::Option::<T>::map": ("opt", "map"), "std::option::Option::<T>::map_or": ("opt", "map_or"),
     "std::option::Option::<T>::map_or_else": ("opt", "map_or_else"), "std::option::Option::<T>::and_then": ("opt", "and_then"),
     "std::option::Option::<T>::unwrap_or_else": ("opt", "unwrap_or_else"), "std::option::Option::<T>::ok_or_else": ("opt", "ok_or_else"),
-    "std::option::Option::<T>::or_else": ("opt", "or_else"),
+    "std::option::Option::<T>::or_else": ("opt", "or_else"), "std::option::Option::<T>::ok_or": ("opt", "ok_or"),
+    "std::option::Option::<std::result::Result<T, E>>::transpose": ("opt", "transpose"),
     "std::result::Result::<T, E>::map": ("res", "map"), "std::result::Result::<T, E>::map_err": ("res", "map_err"),
     "std::result::Result::<T, E>::map_or": ("res", "map_or"), "std::result::Result::<T, E>::and_then": ("res", "and_then"),
     "std::result::Result::<T, E>::unwrap_or_else": ("res", "unwrap_or_else"), "std::result::Result::<T, E>::or_else": ("res", "or_else"),
@@ -167,6 +168,8 @@ COMBINATORS = {
     "core::bool::<impl bool>::then": ("bool", "then"), "core::bool::<impl bool>::then_some": ("bool", "then_some"),
     "std::ops::RangeInclusive::<Idx>::contains": ("range", "inclusive"), "std::ops::Range::<Idx>::contains": ("range", "exclusive"),
     "std::convert::From::from": ("from", "prim"),
+    "core::ptr::const_ptr::<impl *const T>::cast": ("ptr", "cast"), "core::ptr::mut_ptr::<impl *mut T>::cast": ("ptr", "cast"),
+    "std::ptr::const_ptr::<impl *const T>::cast": ("ptr", "cast"), "std::ptr::mut_ptr::<impl *mut T>::cast": ("ptr", "cast"),
     "std::ops::FnOnce::call_once": ("fncall", "call"), "std::ops::FnMut::call_mut": ("fncall", "call"), "std::ops::Fn::call": ("fncall", "call"),
 }
 PRIMS = ("bool", "u8", "u16", "u32", "u64", "u128", "usize", "i8", "i16", "i32", "i64", "i128", "isize")
@@ -287,7 +290,7 @@ def apply_fn(F, bld, fop, arg_places, dest, target, unwind, sp, depth, stack):
         if k and "fn" in k and isinstance(k["fn"], str):
             # a plain function passed by name (`.map_err(other_error)`): call it
             name = k["fn"]
-            callee = {"def": name, "args": [], "local": name in F.bodies, "krate": "?", "unsafe": False, "res": {"def": name, "is_item": True, "local": name in F.bodies}, "synthetic": True}
+            callee = {"def": name, "args": list(k.get("fn_args") or []), "self_ty": {"s": (k.get("fn_args") or ["?"])[0], "k": "synth"}, "local": name in F.bodies, "krate": "?", "unsafe": False, "res": {"def": name, "is_item": True, "local": name in F.bodies}, "synthetic": True}
             return bld.block([], {"t": "call", "callee": callee, "args": [mv(a) for a in arg_places], "arg_tys": ["?"] * len(arg_places), "dest": dest, "dest_ty": "?",
                                   "target": target, "unwind": unwind, "fn_span": sp, "sp": sp, "exp": False})
         return None
@@ -381,6 +384,15 @@ def expand_call(F, bld, bi, depth, stack):
         blk["stmts"] = list(blk["stmts"]) + [assign(dest, {"r": "cast", "kind": "IntToInt", "o": args[0], "ty": ca[0]}, sp)]
         blk["term"] = dict(go(target), expanded_call=t["callee"].get("def"))
         return True
+    if fam == "ptr":
+        # `p.cast::<U>()` is `p as *const U`
+        ca = t["callee"].get("args") or []
+        if len(args) != 1 or not ca:
+            return False
+        mutp = "mut_ptr" in (t["callee"].get("def") or "")
+        blk["stmts"] = list(blk["stmts"]) + [assign(dest, {"r": "cast", "kind": "PtrToPtr", "o": args[0], "ty": ("*mut " if mutp else "*const ") + ca[-1]}, sp)]
+        blk["term"] = dict(go(target), expanded_call=t["callee"].get("def"))
+        return True
     if fam == "range":
         b = range_bounds(F, bld, args[0], meth == "inclusive")
         item = args[1].get("m") or args[1].get("c")
@@ -444,6 +456,12 @@ def expand_call(F, bld, bi, depth, stack):
             f = bld.block([assign(dest, mv(P(payload)), sp)], go(target))
             g0 = apply_fn(F, bld, args[1], [P(other)] if fam == "res" else [], dest, target, unwind, sp, depth, stack)
             g = bld.block(take_bad, go(g0)) if g0 is not None else None
+        elif meth == "ok_or":
+            f = bld.block([assign(dest, variant(RES, "Ok", 0, [mv(P(payload))]), sp)], go(target))
+            g = bld.block([assign(dest, variant(RES, "Err", 1, [args[1]]), sp)], go(target))
+        elif meth == "unwrap_or":
+            f = bld.block([assign(dest, mv(P(payload)), sp)], go(target))
+            g = bld.block(take_bad + [assign(dest, args[1], sp)], go(target))
         elif meth == "ok_or_else":
             f = bld.block([assign(dest, variant(RES, "Ok", 0, [mv(P(payload))]), sp)], go(target))
             fin = bld.block([assign(dest, variant(RES, "Err", 1, [mv(P(r))]), sp)], go(target))
@@ -459,6 +477,20 @@ def expand_call(F, bld, bi, depth, stack):
             test = bld.block([], sw(mv(P(keep)), g, yes))
             f0 = apply_fn(F, bld, args[1], [P(pref)], P(keep), test, unwind, sp, depth, stack)
             f = bld.block([assign(pref, {"r": "ref", "mut": False, "p": P(payload)}, sp)], go(f0)) if f0 is not None else None
+        elif meth == "transpose":
+            # Option<Result<T, E>> -> Result<Option<T>, E>
+            inner = bld.local("?", "inner")
+            d2 = bld.local("isize")
+            okv = bld.local("?", "ok")
+            errv = bld.local("?", "err")
+            some = bld.local("?", "some")
+            b_ok = bld.block([assign(okv, mv(down(P(payload), 0, "Ok")), sp), assign(some, variant(OPT, "Some", 1, [mv(P(okv))]), sp),
+                              assign(dest, variant(RES, "Ok", 0, [mv(P(some))]), sp)], go(target))
+            b_err = bld.block([assign(errv, mv(down(P(payload), 1, "Err")), sp), assign(dest, variant(RES, "Err", 1, [mv(P(errv))]), sp)], go(target))
+            f = bld.block([assign(d2, {"r": "discr", "p": P(payload)}, sp)],
+                          {"t": "switch", "discr": mv(P(d2)), "discr_ty": "isize", "targets": [[0, b_ok]], "otherwise": b_err, "sp": sp, "exp": False})
+            none = bld.local("?", "none")
+            g = bld.block([assign(none, variant(OPT, "None", 0, []), sp), assign(dest, variant(RES, "Ok", 0, [mv(P(none))]), sp)], go(target))
         elif meth == "or_else":
             f = bld.block([assign(dest, variant(adt, good, good_i, [mv(P(payload))]), sp)], go(target))
             g0 = apply_fn(F, bld, args[1], [P(other)] if fam == "res" else [], dest, target, unwind, sp, depth, stack)
@@ -613,9 +645,118 @@ def prepare(F, raw, depth=0, stack=()):
     for blk in bld.m["blocks"]:
         if blk["term"] is None:         # left behind by an expansion that was abandoned half-way: never entered
             blk["term"] = {"t": "unreachable", "sp": raw["span"], "exp": False}
+    if any("{closure" in a for a in bld.absorbed):
+        forward_closure_places(bld.m)
     bld.raw["inlined"] = sorted(bld.absorbed)
     cache[key] = (bld.raw, set(bld.absorbed))
     return cache[key]
+
+
+def forward_closure_places(m):
+    """After a closure body has been spliced in, its accesses to captured variables go through the environment: `(*(env.0)) = ..`
+    with env = the closure aggregate and field 0 = `&mut (*self).next`.  The place-level analyses (who stores which field) look
+    at projections, so such a place is rewritten to the captured place itself -- `(*self).next = ..` -- when every link is a local
+    with exactly one definition: env <- move of the closure aggregate (or a borrow of it), field k of the aggregate <- a plain
+    local, that local <- `&[mut] P` with P rooted in a parameter.  A sound identity rewrite (single definitions, parameter-rooted
+    referents), applied only to places that start at a closure environment."""
+    nargs = m["arg_count"]
+    defs = {}
+    for blk in m["blocks"]:
+        for st in blk["stmts"]:
+            if st.get("s") == "assign" and not st["lhs"]["p"]:
+                defs.setdefault(st["lhs"]["l"], []).append(st["rv"])
+            elif st.get("s") == "assign":
+                defs.setdefault(st["lhs"]["l"], []).append("partial") if st["lhs"]["p"][0] != "deref" else None
+        t = blk["term"]
+        if t and t["t"] == "call" and not t["dest"]["p"]:
+            defs.setdefault(t["dest"]["l"], []).append("call")
+
+    def single(l):
+        d = defs.get(l)
+        return d[0] if d and len(d) == 1 and isinstance(d[0], dict) else None
+
+    def plain(o):
+        q = (o.get("m") or o.get("c")) if isinstance(o, dict) else None
+        return q["l"] if q is not None and not q["p"] else None
+
+    def closure_agg(l):
+        """The closure aggregate a local holds (following moves), and whether the local is a reference to it."""
+        byref = False
+        for _ in range(8):
+            rv = single(l)
+            if rv is None:
+                return None, byref
+            if rv["r"] == "agg" and rv.get("agg") == "closure":
+                return rv, byref
+            if rv["r"] == "use":
+                l = plain(rv["o"])
+            elif rv["r"] == "ref" and not rv["p"]["p"]:
+                l, byref = rv["p"]["l"], True
+            else:
+                return None, byref
+            if l is None:
+                return None, byref
+        return None, byref
+
+    def from_closure(l):
+        return "{closure" in str(m["locals"][l].get("inlined_from") or "") if l < len(m["locals"]) else False
+
+    def is_ref_ty(l):
+        return str(m["locals"][l]["ty"].get("s", "")).startswith(("&", "*"))
+
+    def rewrite(place):
+        """All or nothing: the place is replaced only if the chain ends at a parameter."""
+        if not place["p"] or place["l"] <= nargs or not from_closure(place["l"]):
+            return place
+        cur = {"l": place["l"], "p": list(place["p"])}
+        for _ in range(16):
+            if 1 <= cur["l"] <= nargs:
+                out = dict(place)
+                out["l"], out["p"] = cur["l"], cur["p"]
+                return out
+            pr = cur["p"]
+            agg, byref = closure_agg(cur["l"])
+            if agg is not None and pr:
+                rest = pr
+                if byref:
+                    if rest[0] != "deref":
+                        return place
+                    rest = rest[1:]
+                if not rest or not isinstance(rest[0], dict) or not isinstance(rest[0].get("f"), int) or rest[0]["f"] >= len(agg["ops"]):
+                    return place
+                cap = plain(agg["ops"][rest[0]["f"]])
+                if cap is None:
+                    return place
+                cur = {"l": cap, "p": list(rest[1:])}
+                continue
+            rv = single(cur["l"])
+            if rv is None:
+                return place
+            if pr and pr[0] == "deref" and rv["r"] in ("ref", "rawptr"):
+                cur = {"l": rv["p"]["l"], "p": list(rv["p"]["p"]) + pr[1:]}           # *(&P) = P
+                continue
+            if rv["r"] == "use" and is_ref_ty(cur["l"]):
+                q = rv["o"].get("m") or rv["o"].get("c")
+                if q is None:
+                    return place
+                cur = {"l": q["l"], "p": list(q["p"]) + pr}                            # a copied / moved reference
+                continue
+            return place
+        return place
+
+    def walk(x):
+        if isinstance(x, dict):
+            if "l" in x and "p" in x and isinstance(x["l"], int) and isinstance(x["p"], list):
+                return rewrite(x)
+            return {k: walk(v) for k, v in x.items()}
+        if isinstance(x, list):
+            return [walk(v) for v in x]
+        return x
+
+    for blk in m["blocks"]:
+        blk["stmts"] = [walk(st) for st in blk["stmts"]]
+        if blk["term"] is not None:
+            blk["term"] = walk(blk["term"])
 
 
 def inline_raw(F, raw, depth=0, stack=()):
